@@ -423,6 +423,17 @@ func expectation(cont, key stick.Value, args []stick.Value) (mode expMode, cands
 			}
 		}
 		if len(cands) > 0 {
+			// a number looked up in a map keyed by numbers finds the entry whose key is that number, whichever
+			// numeric type carries either of them (a template has only float64 to offer): when the key's type
+			// holds the number exactly, the element must come back. Other spellings (a numeric string for a
+			// number, a number for a string) may or may not be accepted.
+			if kk := reflect.ValueOf(key); isNumKind(kk.Kind()) && isNumKind(kt.Kind()) && len(cands) == 1 {
+				if f, ok := numericValue(key); ok {
+					if _, fits := exactNumber(kk, f, kt); fits {
+						return loosen(mustElem), cands
+					}
+				}
+			}
 			return elemOrErr, cands
 		}
 		return mustErr, nil
